@@ -153,9 +153,22 @@ def run_values(job):
     mol.verbose = False
     es = Electronic_Structure(params)
     es(mol)
+    kernel = None
     if job.get("path") == "xlksa":
-        # XL-BOMD energy at P = converged density with the Krylov / finite electronic temperature branch
-        es(mol, P0=mol.dm.clone(), dm_prop="XL-BOMD", xl_bomd_params={"k": 5, "max_rank": 2, "err_threshold": 0.0, "T_el": float(job.get("T_el", 8000.0))})
+        # XL-BOMD energy with the Krylov / finite electronic temperature branch at an auxiliary density that is NOT the
+        # converged one (perturbation seeded per molecule, so the same in a batch and alone): the kernel update is live
+        import zlib
+
+        P0 = mol.dm.clone()
+        for k, nm in enumerate(names):
+            norb = int(mol.norb[k])
+            g = torch.Generator().manual_seed(77 + zlib.crc32(nm.encode()) % 100000)
+            n4 = 4 * len(scf_driver.MOLS[nm][0])
+            d = 0.01 * (torch.rand((n4, n4), generator=g, dtype=P0.dtype) - 0.5)
+            d = (d + d.T) * (P0[k, :n4, :n4] != 0).to(P0.dtype)
+            P0[k, :n4, :n4] += d
+        es(mol, P0=P0, dm_prop="XL-BOMD", xl_bomd_params={"k": 5, "max_rank": int(job.get("max_rank", 2)), "err_threshold": 0.0, "T_el": float(job.get("T_el", 8000.0))})
+        kernel = mol.dP2dt2.detach()
     out = {}
     for k, nm in enumerate(names):
         n = len(scf_driver.MOLS[nm][0])
@@ -173,5 +186,9 @@ def run_values(job):
         }
         if mol.cis_energies is not None:
             o["cis"] = [float(x) for x in mol.cis_energies[k]]
+        if kernel is not None:
+            n4 = 4 * n
+            o["kernel"] = [float(x) for x in kernel[k, :n4, :n4].reshape(-1)]
+            o["krylov_error"] = float(mol.Krylov_Error[k]) if torch.is_tensor(getattr(mol, "Krylov_Error", None)) else -1.0
         out[nm] = o
     return out
